@@ -1,4 +1,5 @@
 import DoitModel.Proofs.C13Forget
+import DoitModel.Proofs.C13Ignore
 /-! # C13 — forget, ignore and reset-dep have exactly their documented effect
 
 Model: `Model/Cmds.lean` (task graph, target lists of the three commands, a run that honours ignore marks) on the
@@ -67,5 +68,107 @@ theorem C13_pinned_forget_counterexample :
     forgetTarget false gEx ⟨[], false, false, false⟩ none = .crash ∧
     forgetTarget false gEx ⟨[], true, false, false⟩ none = .crash ∧
     forgetTarget true gEx ⟨[], false, false, false⟩ none = .tasks [0, 1, 2, 3, 3, 4] := by decide
+
+/-! ## ignore -/
+
+/-- **ignore (the command).**  `doit ignore names` (all names known, at least one): exactly the named tasks and their
+    sub-tasks get the mark, the rest of their records and every other record, the files and the definitions are
+    untouched. -/
+theorem C13_ignore_cmd (g : Graph) (names l : List Name) (s : St) (h : ignoreTarget g names = .tasks l) :
+    (∀ x, x ∈ l ↔ x ∈ names ∨ ∃ t ∈ names, x ∈ subtasks g t) ∧
+    (∀ x, x ∈ l → (ignoreCmd g names s).rcd x = { s.rcd x with ign := true }) ∧
+    (∀ x, x ∉ l → (ignoreCmd g names s).rcd x = s.rcd x) ∧
+    (ignoreCmd g names s).fs = s.fs ∧ (ignoreCmd g names s).defs = s.defs := by
+  have hl : l = withSubs g names := by
+    unfold ignoreTarget at h
+    split at h
+    · cases h
+    · split at h
+      · cases h
+      · injection h with h; exact h.symm
+  subst hl
+  refine ⟨fun x => mem_withSubs g names x, ?_, ?_, ?_, ?_⟩
+  · intro x hx; simp only [ignoreCmd, h]; rw [ignList_rcd]; simp [hx]
+  · intro x hx; simp only [ignoreCmd, h]; rw [ignList_rcd]; simp [hx]
+  · simp only [ignoreCmd, h]; exact (ignList_frame _ s).1
+  · simp only [ignoreCmd, h]; exact (ignList_frame _ s).2.1
+
+/-- **ignore (any later run).**  In every run -- any selection, flags, action outcomes, and any hand-over order
+    without repetition in which no task is handed over before a dependency it needs has its report (`bad = false`;
+    that is C01's theorem about the dispatcher, evaluated by the driver on every observed run) -- every processed task
+    that carries the mark or reaches a marked task over `task_dep` edges (declared or implicit through a target) is
+    reported ignored, and every processed task with such a task among its setup-tasks is not executed. -/
+theorem C13_ignore_run (g : Graph) (s : St) (order : List Name) (always : Bool) (plan : Name → Plan)
+    (hnd : order.Nodup) (hbad : (runAll true always g plan s order).bad = false) (t : Name) (ht : t ∈ order) :
+    (IgnReach g s.defs (fun k => (s.rcd k).ign) t → outOf (runAll true always g plan s order) t = some .ignored) ∧
+    ((∃ d, d ∈ g.setup t ∧ IgnReach g s.defs (fun k => (s.rcd k).ign) d) →
+      ∃ o, outOf (runAll true always g plan s order) t = some o ∧ o.executed = false) := by
+  have h0 : RunInv g s.defs (fun k => (s.rcd k).ign) [] ⟨s, [], false⟩ :=
+    ⟨rfl, fun _ _ => rfl, fun _ _ => rfl, fun _ hk => absurd hk (by simp)⟩
+  have h02 : SetupInv g s.defs (fun k => (s.rcd k).ign) [] ⟨s, [], false⟩ := fun _ hk => absurd hk (by simp)
+  obtain ⟨i1, i2⟩ := foldl_inv2 always g plan s.defs (fun k => (s.rcd k).ign) order [] ⟨s, [], false⟩ hnd
+    (fun _ _ => by simp) h0 h02 hbad
+  have hmem : t ∈ order.reverse ++ [] := by simp [ht]
+  exact ⟨fun hr => i1.ignored t hmem hr, fun hex => i2 t hmem hex⟩
+
+/-- the operations after which a mark on `T` is still there: everything except a `forget` whose documented selection
+    contains `T` -- and, in this theorem, `reset-dep` and a change of `--check_file_uptodate` (after such a change
+    `get_status` inside `reset-dep` drops the whole record, mark included; see the report) -/
+def keeps (g : Graph) (T : Name) : COp → Prop
+  | .forget a dflt => ¬ForgetSel g a dflt T
+  | .reset _ => False
+  | .checker _ => False
+  | _ => True
+
+/-- **ignore (until forgotten).**  The mark survives every history of file edits, runs (whatever they execute, fail
+    or skip), further `ignore`s and `forget`s of other tasks. -/
+theorem C13_ignore_persists (g : Graph) (T : Name) (h : List COp) (s : St) (hs : (s.rcd T).ign = true)
+    (hk : ∀ op ∈ h, keeps g T op) : ((runC true g s h).rcd T).ign = true := by
+  induction h generalizing s with
+  | nil => exact hs
+  | cons op ops ih =>
+    simp only [runC, List.foldl_cons]
+    apply ih
+    · cases op with
+      | edit p sz c => simp only [stepC, step]; split <;> simpa [writeFile] using hs
+      | touch p => simp only [stepC, step]; split <;> simpa using hs
+      | delete p => simp only [stepC, step]; split <;> simpa using hs
+      | checker c => exact absurd (hk _ List.mem_cons_self) (by simp [keeps])
+      | forget a dflt =>
+        simp only [stepC]
+        rw [forgetCmd_keeps g a dflt s T (hk _ List.mem_cons_self)]; exact hs
+      | ignore names =>
+        simp only [stepC, ignoreCmd]
+        split
+        · rw [ignList_rcd]; split <;> simp [hs]
+        all_goals exact hs
+      | reset names => exact absurd (hk _ List.mem_cons_self) (by simp [keeps])
+      | run order always plan => simp only [stepC]; exact runAll_keeps_ign true always g plan order _ T hs
+    · intro o ho; exact hk o (List.mem_cons_of_mem _ ho)
+
+/-- **ignore, as stated.**  After an accepted `ignore names`, through any such history, in any later run: the named
+    tasks, their sub-tasks and everything reaching them over `task_dep` edges is reported ignored; tasks having one of
+    them as setup-task are not executed. -/
+theorem C13_ignore (g : Graph) (names l : List Name) (s0 : St) (h : List COp) (T : Name)
+    (hacc : ignoreTarget g names = .tasks l) (hT : T ∈ l) (hk : ∀ op ∈ h, keeps g T op)
+    (order : List Name) (always : Bool) (plan : Name → Plan) (hnd : order.Nodup)
+    (hbad : (runAll true always g plan (runC true g (ignoreCmd g names s0) h) order).bad = false)
+    (t : Name) (ht : t ∈ order) :
+    (IgnReach g (runC true g (ignoreCmd g names s0) h).defs (fun k => k = T) t →
+      outOf (runAll true always g plan (runC true g (ignoreCmd g names s0) h) order) t = some .ignored) ∧
+    ((∃ d, d ∈ g.setup t ∧ IgnReach g (runC true g (ignoreCmd g names s0) h).defs (fun k => k = T) d) →
+      ∃ o, outOf (runAll true always g plan (runC true g (ignoreCmd g names s0) h) order) t = some o ∧ o.executed = false) := by
+  have hmark : ((ignoreCmd g names s0).rcd T).ign = true := by
+    rw [(C13_ignore_cmd g names l s0 hacc).2.1 T hT]
+  have hlater := C13_ignore_persists g T h _ hmark hk
+  have mono : ∀ x, IgnReach g (runC true g (ignoreCmd g names s0) h).defs (fun k => k = T) x →
+      IgnReach g (runC true g (ignoreCmd g names s0) h).defs
+        (fun k => ((runC true g (ignoreCmd g names s0) h).rcd k).ign) x := by
+    intro x hx
+    induction hx with
+    | mark hm => exact IgnReach.mark (by simp at hm; subst hm; exact hlater)
+    | dep hd _ ih => exact IgnReach.dep hd ih
+  have := C13_ignore_run g _ order always plan hnd hbad t ht
+  exact ⟨fun hr => this.1 (mono t hr), fun ⟨d, hd, hr⟩ => this.2 ⟨d, hd, mono d hr⟩⟩
 
 end DoitModel.C13
